@@ -19,10 +19,20 @@ Oracle.
   I deliberately did NOT re-derive the shared secret / AES key+iv in the harness and compare: the statement only
   demands symmetry, not a particular derivation (a derivation changed identically on both ends still satisfies it).
   (Spot check done by hand, not asserted: libsodium crypto_scalarmult of the converted keys equals `channel_shared`.)
+  "All plaintexts" includes plaintexts MADE OF THE CHANNEL'S OWN VALUES (`_self_referential`): a packet this channel or the peer's
+  just emitted, sent on as the payload of the next packet (tunnelling / forwarding / resend), nested up to three deep and peeled
+  again by the peer; the first 31/32/33/64 bytes of such a packet alone or followed by text; its checksum field; its ciphertext;
+  each side's client_aes_key_id / server_aes_key_id and the two ids, alone or followed by text. Same three facts are checked.
+  Grid cases try every kind, random cases three kinds drawn with the case (field 'sr').
 * signatures: INDEPENDENT oracle for the positive half (libsodium crypto_sign_open via harness/ref/refkeys.py) plus
   the library's own verify_sign; negative half: verify_sign(...) must not return a truthy value (False or any
   exception are both fine) for another message (generated / 1 bit flipped / truncated / extended), another key
   (other seed / 1 bit flipped) or an altered signature (1 bit flipped / byte appended / last byte dropped).
+  "Another message" also covers messages RELATED to the signed one (`_RELATIVES`): its SHA-256 / double SHA-256 / SHA-512 /
+  SHA-512[:32] (every case) and, three per case, SHA3-256, BLAKE2b-32, SHA-1, hex / upper hex / base64 text, hex digest text,
+  zero-padded, zero-stripped, length-prefixed, byte-reversed, safe-sign-prefixed - in BOTH directions: the signature of m is
+  presented for t(m), and the signature of t(m) (made with the library's helpers) is presented for m ("the digest was signed,
+  the payload is shown").
   Helpers covered: signature.sign_message(m, sk64), ciphers.get_signature(SigningKey, m), ciphers.Client.sign(m);
   the "matching public key" is taken both from libsodium and from keys.private_key_to_public_key(sk64).
 * mnemonics: mnemonic_is_valid(mnemonic_new()) and the INDEPENDENT documented rule (24 words, basic-seed test) from
@@ -30,6 +40,10 @@ Oracle.
   PBKDF2-HMAC-SHA512 'TON default seed' x100000, first 32 bytes = Ed25519 seed).
   mnemonic_new() draws from os.urandom, so those cases carry only an index; a failure stores the drawn words in the
   detail, and a case {'words': [...]} replays them (edit the replay file's case to that form).
+  Cases {'stream', 'lens'} replace os.urandom for the call by a steered source: every candidate phrase the generator tries has
+  the designed byte length L = sum(lens) + 23 (all of 95..215 in the thorough tier; quick: every 6th plus the hash block/padding
+  boundaries 111..113, 119..121, 127..129, 143..145, 159..161, 191..193 and the extremes) - lengths a real source meets once in
+  tens of thousands of candidates. mnemonic-derive also takes fixed words of designed phrase length 127/128/129 (thorough: more).
 
 Deliberately NOT asserted (not in the statement):
 * which of the two directions uses the reversed secret, the value of the shared secret, the AES key/iv slicing,
@@ -50,7 +64,11 @@ from harness.ref import refkeys
 RULE = ('channel case = (seed a, seed b, id mode chan|lt|raw with its seeds/ids, plaintexts p and q of 0..2000 bytes); '
         'both peers are built and both directions checked in every case. signature case = (seed, message 0..300 bytes, '
         'other seed, other message, bit positions for the message/key/signature flips); every signature case applies all '
-        'tamper kinds. mnemonic cases = index of a fresh mnemonic_new() draw, or 24 word indices. '
+        'tamper kinds plus related messages (digests / text encodings / framings of the signed message, both directions). '
+        'every non-large channel case also sends plaintexts made of the channel\'s own values (emitted packets nested up to 3 deep, '
+        'packet prefixes, checksum field, ciphertext, key ids, peer ids; all kinds in grid cases, 3 drawn kinds in random cases). '
+        'mnemonic cases = index of a fresh mnemonic_new() draw, a draw from a supplied random stream (with edge words, a stuck '
+        'source, or steered so that every candidate phrase has a designed byte length 95..215), or 24 fixed words. '
         'non-trivial = channel case whose A-side id is greater than or equal to the B-side id (descending or equal), or a '
         'signature case (each one is a tampered-signature case); mnemonic cases are not counted as non-trivial '
         '(the rule given for this property does not name them). distinct = distinct case')
@@ -747,8 +765,10 @@ SUBCHECKS = [
     Sub('sign-random', check_sign, strategy=strat_sign, classify=classify_sign, n=(1500, 30000), shards=(8, 32)),
     Sub('mnemonic-new-valid', check_mnemonic_valid, enum=enum_mnemonic_valid, classify=classify_mnemonic,
         nontrivial=lambda c: False, shards=(10, 32), case_cpu_s=120.0,
-        note='fresh mnemonic_new() draws (os.urandom inside the library): 20 quick / 500 thorough'),
+        note='fresh mnemonic_new() draws (os.urandom inside the library): 20 quick / 500 thorough; draws from supplied streams (edge words, '
+             'stuck source); draws steered to a designed phrase byte length (quick 47 cases incl. 111..113, 127..129, 191..193; thorough all 95..215 x 4 layouts)'),
     Sub('mnemonic-derive', check_derive, enum=enum_derive, classify=classify_mnemonic, nontrivial=lambda c: False,
         shards=(5, 25), case_cpu_s=180.0,
-        note='mnemonic_to_wallet_key twice + reference derivation (3 x PBKDF2 100000 rounds per case): 8 quick / 56 thorough; the second call takes the words as tuple / iterator / generator'),
+        note='mnemonic_to_wallet_key twice + reference derivation (3 x PBKDF2 100000 rounds per case): 8 quick / 56 thorough; the second call takes the words as tuple / iterator / generator; '
+             'plus fixed words whose joined phrase is 127 / 128 / 129 bytes (thorough: 14 boundary lengths)'),
 ]
